@@ -136,7 +136,8 @@ type pgen struct {
 	ints   []string
 	ro     []string // loop counters: readable, never assigned by generated code
 	flts   []string
-	fns    []string // user functions of one numeric parameter
+	fns    []string // user functions of numeric parameters
+	arity  map[string]int
 	inLoop int
 	inFn   int
 }
@@ -181,7 +182,12 @@ func (g *pgen) numExpr(d int) string {
 		return pick(g.r, "!", "- ") + "(" + g.numExpr(d-1) + ")"
 	case 8:
 		if len(g.fns) > 0 {
-			return pick(g.r, g.fns...) + "(" + g.numExpr(d-1) + ")"
+			f := pick(g.r, g.fns...)
+			args := []string{}
+			for a := 0; a < g.arity[f]; a++ {
+				args = append(args, g.numExpr(d-1))
+			}
+			return f + "(" + strings.Join(args, ", ") + ")"
 		}
 	case 9:
 		return "len([" + g.numExpr(d-2) + ", " + g.numExpr(d-2) + ", 3])" + pick(g.r, "", " + 0.5", " * 2")
@@ -268,12 +274,33 @@ func (g *pgen) stmt(indent, d int) {
 			g.stmts(indent+1, 1, d-1)
 		}
 		g.line(indent, "}")
-	case k == 12 && d > 0 && g.inFn == 0 && indent == 0:
+	case (k == 12 || k == 15) && d > 0 && g.inFn == 0 && indent == 0:
 		f := g.fresh("f")
 		p := g.fresh("p")
-		g.line(indent, "fn "+f+"("+p+") {")
+		params := []string{p}
+		// further parameters, often named like variables of the caller (arguments are evaluated in
+		// the caller's scope, whatever the parameters are called)
+		outer := append([]string{}, g.ints...)
+		for np := g.r.Intn(3); np > 0; np-- {
+			q := g.fresh("p")
+			if len(outer) > 0 && g.r.Intn(2) == 0 {
+				k := g.r.Intn(len(outer))
+				q = outer[k]
+				outer = append(outer[:k], outer[k+1:]...)
+			}
+			if g.r.Intn(2) == 0 {
+				params = append([]string{q}, params...)
+			} else {
+				params = append(params, q)
+			}
+		}
+		g.line(indent, "fn "+f+"("+strings.Join(params, ", ")+") {")
 		savedI, savedRO := g.ints, g.ro
-		g.ints, g.ro = []string{p}, nil
+		g.ints, g.ro = append([]string{}, params...), nil
+		if g.arity == nil {
+			g.arity = map[string]int{}
+		}
+		g.arity[f] = len(params)
 		g.inFn++
 		g.stmts(indent+1, g.r.Intn(2), d-1)
 		switch g.r.Intn(4) {
@@ -284,11 +311,35 @@ func (g *pgen) stmt(indent, d int) {
 		case 1:
 			g.line(indent+1, "for let q = 0; q < 3; q = q + 1 { if q == 1 { return q + "+p+"; } }")
 		}
-		g.line(indent+1, "return "+g.numExpr(2)+";")
+		if len(params) > 1 && g.r.Intn(2) == 0 {
+			// a result that depends on which argument went to which parameter
+			ret := params[0]
+			for _, q := range params[1:] {
+				ret += " * 10 + " + q
+			}
+			g.line(indent+1, "return "+ret+";")
+		} else {
+			g.line(indent+1, "return "+g.numExpr(2)+";")
+		}
 		g.inFn--
 		g.ints, g.ro = savedI, savedRO
 		g.line(indent, "}")
 		g.fns = append(g.fns, f)
+		if len(params) > 1 {
+			// call it at once with the caller's variables (some named like the parameters) as arguments
+			args := make([]string, len(params))
+			for a := range args {
+				if len(g.ints) > 0 && g.r.Intn(3) != 0 {
+					args[a] = pick(g.r, g.ints...)
+					if g.r.Intn(3) == 0 {
+						args[a] += " + " + g.intLit()
+					}
+				} else {
+					args[a] = g.numExpr(1)
+				}
+			}
+			g.line(indent, "print("+f+"("+strings.Join(args, ", ")+"));")
+		}
 	case k == 13 && d > 0:
 		g.line(indent, "{")
 		g.stmts(indent+1, 1+g.r.Intn(2), d-1)
@@ -361,6 +412,9 @@ func evalGen(r *rand.Rand, tier string, n int) []*wire.Case {
 		"print(9223372036854775807 + 1);", "print(3 * 1.5 - 1);", "print(true + true);", "print(2 - - 2);", "print(!0); print(!2.5); print(!0.0);")
 	add("d-compare", "print(1 < 2); print(2 <= 2); print(3 > 4); print(1 == 1.0); print(1 != 2); print(1 <> 1); print(2 && 0); print(0 || 0.0); print(0 || \"s\" == 1);")
 	add("d-errors", "print(1 / 0);", "print(1.0 / 0);", "print(\"a\" + 1);", "print(nope);", "fn f(a) { return a; } print(f());", "let a = 1; let a = 2;", "print(5 / (2 - 2));", "print(type(1)); print(type(\"s\")); print(type(null)); print(type([1])); print(type(print)); print(type(fn(){ return 1; }));")
+	add("d-fn-args", "let a = 1; let b = 2; fn second(b, a) { return a; } print(second(a, b)); print(second(b, a));",
+		"fn gcd(a, b) { if b == 0 { return a; } return gcd(b, a - (a / b) * b); } print(gcd(12, 18)); print(gcd(48, 36));",
+		"let x = 5; fn three(p, x, q) { return p * 100 + x * 10 + q; } print(three(x, x + 1, x + 2)); print(x);")
 	add("d-scope", "let x = 1; { let x = 2; print(x); x = 3; print(x); } print(x);", "let x = 1; if 1 { x = 5; let y = 2; } print(x); print(y);",
 		"let x = 1; fn f() { return x + 1; } { let x = 10; print(f()); } print(f());", "fn g(x) { x = x + 1; return x; } let x = 5; print(g(x)); print(x);")
 	add("d-loops", "let i = 0; while i < 5 { i = i + 1; if i == 2 { continue; } if i == 4 { break; } print(i); }",
